@@ -746,6 +746,35 @@ func palindromeState(f *ssa.Function) (int, string) {
 				if a.Cond.String() != "true" && strings.Contains(a.Cond.String(), "omplement") || loopCompares(f) {
 					return mirrorLoopState(f)
 				}
+				if a.T.Name == "false" {
+					// two shapes of an early "no" are decided. (1) It depends on the LENGTH alone: there is a
+					// palindrome of every length ("N", "AT", "ANT", ...), so no length can be ruled out.
+					lengthOnly, lettersEqual := true, false
+					for _, at := range a.Cond.atoms() {
+						stripped := strings.ReplaceAll(at.Atom.String(), "call[builtin:len](param[0])", "L")
+						if strings.Contains(stripped, "param[0]") {
+							lengthOnly = false
+						}
+						// (2) two letters of the text compared with each other for equality, no complement involved
+						if at.Atom.isBin("==") && !at.Neg && !at.Disj && len(at.Atom.Args) == 2 {
+							x, y := stripConv(at.Atom.Args[0]), stripConv(at.Atom.Args[1])
+							if x.Op == "index" && y.Op == "index" && len(x.Args) == 2 && len(y.Args) == 2 && x.Args[0].isParam(0) && y.Args[0].isParam(0) && !strings.Contains(a.Cond.String(), "omplement") {
+								lettersEqual = true
+							}
+						}
+					}
+					if lengthOnly && len(a.Cond.atoms()) > 0 {
+						return broken, "a path answers false under " + short(a.Cond.String()) + ", a condition on the length alone: there are palindromes of every length (\"N\", \"AT\", \"ANT\"), so none can be ruled out by its length"
+					}
+					if lettersEqual {
+						return broken, "a path answers false under " + short(a.Cond.String()) + " because two letters of the sequence are equal: the codes that are their own complement (N, S, W) pair with themselves, so \"NN\" and \"SATS\" are palindromic"
+					}
+					// an early "no": a necessary condition of being palindromic tested first (a composition count,
+					// the two end letters) is sound when it really is necessary; whether it is, is not decided here
+					st = unknown
+					why = "a path answers false under " + short(a.Cond.String()) + " before the sequence is compared with its reverse complement; whether every palindrome passes that test is not decided"
+					continue
+				}
 				return broken, "a path answers " + a.T.Name + " under " + short(a.Cond.String()) + " without comparing the sequence with its reverse complement"
 			}
 		case (a.T.isCall("strings.EqualFold") || a.T.isCall("bytes.EqualFold")) && len(a.T.Args) == 2 &&
